@@ -80,6 +80,13 @@ static void pkey_out(const SM2_KEY *k, int with_priv) {
 	if (with_priv) { sm2_z256_to_bytes(k->private_key, b); puthex(b, 32); printf(" "); }
 	sm2_z256_point_to_bytes(&k->public_key, b); puthex(b, 64);
 }
+/* decode-into-dirty-target: the decoder has run into a poison-filled object (*A); run it again on the same input into
+ * an object holding ANOTHER valid value of the type; on success the two results must be the same object, byte for byte */
+static SM2_KEY other_key; static int other_key_ok;
+static const SM2_KEY *otherkey(void) { if (!other_key_ok) { sm2_z256_t d; uint8_t b[32]; memset(b, 0x37, 32); sm2_z256_from_bytes(d, b); sm2_key_set_private_key(&other_key, d); other_key_ok = 1; } return &other_key; }
+static void whole(int same) { printf(same ? " WHOLE" : " TARGET-DEPENDENT"); }
+#define SECOND_RUN(HEX, TYPE, A, INIT, CALL) do { xb in2_ = xhex(HEX); const uint8_t *ip2_ = in2_.p; size_t il2_ = in2_.n; const uint8_t **IN = &ip2_; size_t *INLEN = &il2_; \
+	TYPE *B = malloc(sizeof(TYPE)); int r2_; INIT; r2_ = (CALL); whole(r2_ == 1 && memcmp(A, B, sizeof(TYPE)) == 0); free(B); xfree(in2_); } while (0)
 static int key_from_d(SM2_KEY *k, const char *hex) { xb d = xhex(hex); sm2_z256_t x; int r = -1; if (d.n == 32) { sm2_z256_from_bytes(x, d.p); r = sm2_key_set_private_key(k, x); } xfree(d); return r; }
 static int key_from_xy(SM2_KEY *k, const char *hex) { xb d = xhex(hex); SM2_Z256_POINT P; int r = -1; if (d.n == 64 && sm2_z256_point_from_bytes(&P, d.p) == 1) r = sm2_key_set_public_key(k, &P); xfree(d); return r; }
 
@@ -121,17 +128,29 @@ static int handle2(size_t nw, char **w) {
 		memcpy(C->point.x, x.p, x.n < 32 ? x.n : 32); memcpy(C->point.y, y.p, y.n < 32 ? y.n : 32); memcpy(C->hash, h.p, h.n < 32 ? h.n : 32); memcpy(C->ciphertext, c.p, c.n < 255 ? c.n : 255); C->ciphertext_size = (uint8_t)(c.n < 255 ? c.n : 255);
 		ENC(sm2_ciphertext_to_der(C, OUT, OUTLEN)); free(C); xfree(x); xfree(y); xfree(h); xfree(c); }
 	else if (!strcmp(op, "ctD") && nw == 2) { DEC_BEGIN(w[1]); SM2_CIPHERTEXT *C = malloc(sizeof(*C)); memset(C, 0x5a, sizeof(*C));
-		r_ = sm2_ciphertext_from_der(C, IN, INLEN); DEC_RET() { printf("OK "); puthex(C->point.x, 32); printf(" "); puthex(C->point.y, 32); printf(" "); puthex(C->hash, 32); printf(" "); puthex(C->ciphertext, C->ciphertext_size); } DEC_END(); free(C); }
+		r_ = sm2_ciphertext_from_der(C, IN, INLEN); DEC_RET() { size_t i_, z_ = 1; printf("OK "); puthex(C->point.x, 32); printf(" "); puthex(C->point.y, 32); printf(" "); puthex(C->hash, 32); printf(" "); puthex(C->ciphertext, C->ciphertext_size);
+			for (i_ = C->ciphertext_size; i_ < sizeof(C->ciphertext); i_++) if (C->ciphertext[i_]) z_ = 0;      /* the unused tail is part of the object */
+			if (!z_) printf(" TAIL-NOT-ZERO");
+			SECOND_RUN(w[1], SM2_CIPHERTEXT, C, memset(B, 0xc3, sizeof(*B)), sm2_ciphertext_from_der(B, IN, INLEN)); } DEC_END(); free(C); }
 	else if ((!strcmp(op, "pubE") || !strcmp(op, "pubiE")) && nw >= 2) { SM2_KEY *k = malloc(sizeof(*k)); if (key_from_xy(k, w[1]) != 1) printf("ERR-KEYSET");
 		else if (op[3] == 'E') ENC(sm2_public_key_to_der(k, OUT, OUTLEN)); else ENC(sm2_public_key_info_to_der(k, OUT, OUTLEN)); free(k); }
 	else if ((!strcmp(op, "pubD") || !strcmp(op, "pubiD")) && nw >= 2) { DEC_BEGIN(w[1]); SM2_KEY *k = malloc(sizeof(*k)); memset(k, 0x5a, sizeof(*k));
-		r_ = op[3] == 'D' ? sm2_public_key_from_der(k, IN, INLEN) : sm2_public_key_info_from_der(k, IN, INLEN); DEC_RET() { printf("OK "); pkey_out(k, 0); } DEC_END(); free(k); }
+		r_ = op[3] == 'D' ? sm2_public_key_from_der(k, IN, INLEN) : sm2_public_key_info_from_der(k, IN, INLEN); DEC_RET() { printf("OK "); pkey_out(k, 1);
+			SECOND_RUN(w[1], SM2_KEY, k, *B = *otherkey(), op[3] == 'D' ? sm2_public_key_from_der(B, IN, INLEN) : sm2_public_key_info_from_der(B, IN, INLEN)); } DEC_END(); free(k); }
+	else if ((!strcmp(op, "pubiP") || !strcmp(op, "p8P")) && nw >= 2) { xb t = xhex(w[1]); SM2_KEY *k = malloc(sizeof(*k)), *B = malloc(sizeof(*B)); FILE *fp = t.n ? fmemopen(t.p, t.n, "r") : fopen("/dev/null", "r"); int r, r2;
+		memset(k, 0x5a, sizeof(*k)); *B = *otherkey();
+		r = op[1] == 'u' ? sm2_public_key_info_from_pem(k, fp) : sm2_private_key_info_from_pem(k, fp); fclose(fp);
+		fp = t.n ? fmemopen(t.p, t.n, "r") : fopen("/dev/null", "r"); r2 = op[1] == 'u' ? sm2_public_key_info_from_pem(B, fp) : sm2_private_key_info_from_pem(B, fp); fclose(fp);
+		if (r == 1) { printf("OK "); pkey_out(k, 1); whole(r2 == 1 && memcmp(k, B, sizeof(*k)) == 0); } else printf("ERR");
+		free(k); free(B); xfree(t); }
 	else if ((!strcmp(op, "privE") || !strcmp(op, "p8E")) && nw >= 2) { SM2_KEY *k = malloc(sizeof(*k)); if (key_from_d(k, w[1]) != 1) printf("ERR-KEYSET");
 		else if (op[1] == 'r') ENC(sm2_private_key_to_der(k, OUT, OUTLEN)); else ENC(sm2_private_key_info_to_der(k, OUT, OUTLEN)); free(k); }
 	else if (!strcmp(op, "privD") && nw >= 2) { DEC_BEGIN(w[1]); SM2_KEY *k = malloc(sizeof(*k)); memset(k, 0x5a, sizeof(*k));
-		r_ = sm2_private_key_from_der(k, IN, INLEN); DEC_RET() { printf("OK "); pkey_out(k, 1); } DEC_END(); free(k); }
+		r_ = sm2_private_key_from_der(k, IN, INLEN); DEC_RET() { printf("OK "); pkey_out(k, 1);
+			SECOND_RUN(w[1], SM2_KEY, k, *B = *otherkey(), sm2_private_key_from_der(B, IN, INLEN)); } DEC_END(); free(k); }
 	else if (!strcmp(op, "p8D") && nw >= 2) { DEC_BEGIN(w[1]); SM2_KEY *k = malloc(sizeof(*k)); const uint8_t *at = PP; size_t atl = PI; memset(k, 0x5a, sizeof(*k));
-		r_ = sm2_private_key_info_from_der(k, &at, &atl, IN, INLEN); DEC_RET() { printf("OK "); pkey_out(k, 1); printf(" "); pbuf(at, atl); } DEC_END(); free(k); }
+		r_ = sm2_private_key_info_from_der(k, &at, &atl, IN, INLEN); DEC_RET() { const uint8_t *at2; size_t atl2; printf("OK "); pkey_out(k, 1); printf(" "); pbuf(at, atl);
+			SECOND_RUN(w[1], SM2_KEY, k, *B = *otherkey(), sm2_private_key_info_from_der(B, &at2, &atl2, IN, INLEN)); } DEC_END(); free(k); }
 	else if (!strcmp(op, "kdf") && nw == 4) { xb pass = xhex(w[1]), salt = xhex(w[2]); uint8_t key[16]; int r = sm3_pbkdf2((char *)pass.p, pass.n, salt.p, salt.n, (size_t)atoi(w[3]), 16, key);
 		if (r == 1) puthex(key, 16); else printf("ERR"); xfree(pass); xfree(salt); }
 	else if (!strcmp(op, "p8seal") && nw >= 8) {       /* EncryptedPrivateKeyInfo with chosen parameters, as sm2_private_key_info_encrypt_to_der builds it */
@@ -159,7 +178,8 @@ static int handle2(size_t nw, char **w) {
 	else if (!strcmp(op, "p8open") && nw >= 3) { xb pass = xhex(w[1]); char *pz = malloc(pass.n + 1); memcpy(pz, pass.p, pass.n); pz[pass.n] = 0;
 		DEC_BEGIN(w[2]); SM2_KEY *k = malloc(sizeof(*k)); const uint8_t *at = PP; size_t atl = PI; memset(k, 0x5a, sizeof(*k));
 		r_ = sm2_private_key_info_decrypt_from_der(k, &at, &atl, pz, IN, INLEN);
-		if (r_ == 1) { printf("OK "); pkey_out(k, 1); printf(" "); pbuf(at, atl); } else printf("ERR"); DEC_END(); free(k); free(pz); xfree(pass); }
+		if (r_ == 1) { const uint8_t *at2; size_t atl2; printf("OK "); pkey_out(k, 1); printf(" "); pbuf(at, atl);
+			SECOND_RUN(w[2], SM2_KEY, k, *B = *otherkey(), sm2_private_key_info_decrypt_from_der(B, &at2, &atl2, pz, IN, INLEN)); } else printf("ERR"); DEC_END(); free(k); free(pz); xfree(pass); }
 	else if (!strcmp(op, "pemW") && nw == 3) { xb name = xhex(w[1]), d = xhex(w[2]); char *nz = malloc(name.n + 1); char *txt = NULL; size_t tl = 0; FILE *fp = open_memstream(&txt, &tl); int r;
 		memcpy(nz, name.p, name.n); nz[name.n] = 0; r = pem_write(fp, nz, d.p, d.n); fclose(fp);
 		if (r == 1) { printf("OK "); puthex((uint8_t *)txt, tl); } else printf("ERR"); free(txt); free(nz); xfree(name); xfree(d); }
@@ -255,7 +275,8 @@ static void handle(size_t nw, char **w) {
 		memset(sig, 0, sizeof(*sig)); memcpy(sig->r, r.p, r.n < 32 ? r.n : 32); memcpy(sig->s, s.p, s.n < 32 ? s.n : 32);
 		ENC(sm2_signature_to_der(sig, OUT, OUTLEN)); free(sig); xfree(r); xfree(s); }
 	else if (!strcmp(op, "sigD") && nw == 2) { DEC_BEGIN(w[1]); SM2_SIGNATURE *sig = malloc(sizeof(*sig)); memset(sig, 0xAA, sizeof(*sig));
-		r_ = sm2_signature_from_der(sig, IN, INLEN); DEC_RET() { printf("OK "); puthex(sig->r, 32); printf(" "); puthex(sig->s, 32); } DEC_END(); free(sig); }
+		r_ = sm2_signature_from_der(sig, IN, INLEN); DEC_RET() { printf("OK "); puthex(sig->r, 32); printf(" "); puthex(sig->s, 32);
+			SECOND_RUN(w[1], SM2_SIGNATURE, sig, memset(B, 0x11, sizeof(*B)), sm2_signature_from_der(B, IN, INLEN)); } DEC_END(); free(sig); }
 	else if (!strcmp(op, "hexD") && nw == 2) { xb t = xhex(w[1]); xb o = xalloc(t.n / 2); size_t ol = 0;
 		int r = hex_to_bytes((char *)t.p, t.n, o.p, &ol);
 		if (r == 1) { printf("OK "); puthex(o.p, ol); } else printf("ERR");
